@@ -49,8 +49,8 @@ CLAIMED.update({
             "Kani/CBMC bounded inductive step on the real data-structure operations + structural shape check (bounded stand-in for a contract proof)"),
 })
 
-BOUNDED_SEARCH = ("other", "BOUNDED stand-in, not a proof (the search function is outside Verus's subset). Thorough tier: Kani/CBMC on the REAL find_date_time with a recorder list, for every table of 1..=3 transitions with arbitrary i64 times / type indices / i32 offsets (no leap seconds, trailing rule none or fixed) and every searched field tuple: result set sound and complete against the forward lookup, no duplicates, gap entries exactly at forward transitions with the right two types, ascending order; callees replaced by their Verus-proved contracts. Every tier: bounded concrete comparison of DateTime::find with an independent oracle of the result set through the public API (table zones with/without leap seconds and fixed rule; rule-only DST zones).", "S.6",
-            "Bounded: <= 3 transitions, no leap seconds and no DST rule in the symbolic part; the DST-rule branch and leap seconds are only exercised by the bounded concrete probe. The quick tier runs the concrete probe and the structural check only (the Kani harnesses take 11 and 27 minutes). Trusted: Kani 0.68 / CBMC 6.11, the stubs standing for Verus-proved contracts, the parametricity argument of C17. ",
+BOUNDED_SEARCH = ("other", "BOUNDED stand-in, not a proof (the search function is outside Verus's subset). Thorough tier: Kani/CBMC on the REAL find_date_time with a recorder list, for every table of 1..=3 transitions with arbitrary i64 times / type indices / i32 offsets (no leap seconds, or <= 2 transitions with one leap-second record of either sign; trailing rule none or fixed) and every searched field tuple: result set sound and complete against the forward lookup, no duplicates, gap entries exactly at forward transitions with the right two types, ascending order; callees replaced by their Verus-proved contracts. Every tier: bounded concrete comparison of DateTime::find with an independent oracle of the result set through the public API (table zones with/without leap seconds and fixed rule; rule-only DST zones).", "S.6",
+            "Bounded: <= 3 transitions without / <= 2 transitions with one leap-second record, no DST rule in the symbolic part; the DST-rule branch and longer leap tables are only exercised by the bounded concrete probes. Open known findings F3 (C05: non-interleaving accepted rule yields a duplicate result) and F4 (C06: zero-length segment, e.g. permanent DST, reported as a gap) are carved out of the probes and replayed on every run. The quick tier runs the concrete probe and the structural check only (the Kani harnesses take 11, 21 and 27 minutes). Trusted: Kani 0.68 / CBMC 6.11, the stubs standing for Verus-proved contracts, the parametricity argument of C17. ",
             "bounded model checking (Kani/CBMC) of the real search function with contract stubs + bounded concrete oracle comparison (stand-in for a contract proof)")
 CLAIMED.update({"C05": BOUNDED_SEARCH, "C06": BOUNDED_SEARCH})
 
